@@ -192,3 +192,22 @@ Theorem C03_byte_level_sync_durable_over_any_buffer : forall t n bk bv bh ops al
         exists s'' l, load t (dh, dk, dv) = Ok s'' /\ contents s'' = Ok l /\
                       l ≡ₚ map_to_list (fst (spec_run ∅ ops)).
 Proof. exact sync_durable_over_any_buffer. Qed.
+
+(** ... and for histories that also contain full traversals and statistics calls (Io_wrun_durable.v over Io_wrun_cache.v) *)
+From Aby Require Import Io_wrun Io_wrun_durable.
+Theorem C03_byte_level_sync_durable_with_traversals_over_any_buffer : forall t n bk bv bh ops all,
+  (1 <= n)%N -> pow2 n -> Forall (wop_wf t) ops -> wsized (Store.create t n) ops ->
+  exists s' outs (cf : Io.fid -> list call),
+    wstore_run (Store.create t n) ops = Ok (s', outs) /\ wagree_run ∅ ops outs /\
+    forall ck cv ch fuel,
+      backs ck (Io.get_file (Io.empty_st bk bv bh) Io.FKey) ->
+      backs cv (Io.get_file (Io.empty_st bk bv bh) Io.FVal) ->
+      backs ch (Io.get_file (Io.empty_st bk bv bh) Io.FHtx) ->
+      (forall f c, In (f, c) [(Io.FKey, ck); (Io.FVal, cv); (Io.FHtx, ch)] ->
+         (xrun_fuel (Rabuf.k_cs c) (flat_of (Io.get_file (Io.empty_st bk bv bh) f)) (map call_op (cf f)) <= fuel)%nat) ->
+      exists dk dv dh ek ev eh,
+        synced_disk fuel ck (cf Io.FKey) all = Ok (dk, Rabuf.EvSync all :: ek) /\
+        synced_disk fuel cv (cf Io.FVal) all = Ok (dv, Rabuf.EvSync all :: ev) /\
+        synced_disk fuel ch (cf Io.FHtx) all = Ok (dh, Rabuf.EvSync all :: eh) /\
+        render s' = Ok (dh, dk, dv).
+Proof. exact whistory_sync_durable_over_any_buffer. Qed.
